@@ -2,6 +2,7 @@ package monitor
 
 import (
 	"fmt"
+	"runtime"
 	"strings"
 
 	"github.com/willabides/rjson"
@@ -126,7 +127,19 @@ func RunC15(c *Ctx) {
 		inbuf := make([]byte, 1<<16)
 		var prevDoc []byte
 		small := []string{"null", " null ", "{}", "[]", "[1]", `{"a":1}`, `{"a":1,"b":[true]}`, `{"a":1,"b":`, `[1,2,`, `"str"`, "12", `{"a":{"b":[]}}`, `[[],[[]]]`, "nul", ""}
+		// one history in 13 has garbage collections between its calls (two in a row empty sync.Pool's victim
+		// cache as well): child readers, scratch or hints parked in a pool, behind a finalizer or a weak
+		// pointer only change hands there
+		var gcr *workload.Rand
+		if index%13 == 6 {
+			gcr = workload.NewRand(c.Seed, index+1700000000)
+		}
 		for i := 0; i < n; i++ {
+			if gcr != nil && gcr.Intn(3) == 0 {
+				runtime.GC()
+				runtime.GC()
+				c.Rec.C("garbage_collections_forced_between_calls")
+			}
 			doc, dk := workload.HistDoc(r, c.Seed, i%9 == 4 && index%4 == 0)
 			fn := r.Intn(3)
 			forced := false
